@@ -1532,7 +1532,6 @@ func (t *Tracer) interesting(f *ssa.Function, depth int) (res bool) {
 	return false
 }
 
-
 // globalAlwaysSet: every store to the package-level variable g, anywhere in
 // the program, stores a freshly allocated value (its initialiser): a load of
 // it is never nil.
